@@ -27,6 +27,7 @@ let () =
         | "logsjson", [h; p] -> lj := Some (mk_logsjson (unhex h) (unhex p)); cached_cfg := None; "ok"
         | "fs", [r; name; kind; d] -> fs := mk_fs (n_of_string r) (unhex name) (bytes_of_string kind) (bytes_of_string d) :: !fs; cached_fs := None; "ok"
         | "req", [h; t] -> string_of_bytes (run_req (get_cfg ()) (get_fs ()) (unhex h) (unhex t))
+        | "route", [h; t] -> string_of_bytes (run_route (get_cfg ()) (unhex h) (unhex t))
         | "hreset", [] -> hlogs := []; hwits := []; "ok"
         | "hlog", [short; staging; jr; jp; ko; vo; name; lo; lim; fp; fh; fsz; fts; cr; ver; cp; origin; size; hash; tso; ts] ->
           hlogs := { l_short = unhex short; l_staging = b01 staging; l_json_read = b01 jr; l_json_parse = b01 jp;
